@@ -555,11 +555,14 @@ Lemma frame_bytes_struct (sf : list (bytes * pbval)) :
   flat_map (fun kv => frame_bytes (Some (fst kv), snd kv)) sf = flat_map kv_bytes sf.
 Proof. reflexivity. Qed.
 
-Lemma pb_walk_correct fuel : forall stack acc,
+Lemma concat_rev_cons (c : bytes) racc : concat (frev (c :: racc)) = concat (frev racc) ++ c.
+Proof. rewrite !frev_rev. simpl. rewrite concat_app. simpl. rewrite app_nil_r. reflexivity. Qed.
+
+Lemma pb_walk_correct fuel : forall stack racc,
   (frames_size stack <= fuel)%nat ->
-  pb_walk fuel stack acc = Some (acc ++ flat_map frame_bytes stack).
+  pb_walk fuel stack racc = Some (concat (frev racc) ++ flat_map frame_bytes stack).
 Proof.
-  induction fuel as [|f IH]; intros stack acc Hsz.
+  induction fuel as [|f IH]; intros stack racc Hsz.
   - destruct stack as [|[k v] st]; simpl.
     + rewrite app_nil_r. reflexivity.
     + exfalso. unfold frames_size in Hsz. simpl in Hsz. assert (H := pb_size_pos v). lia.
@@ -569,17 +572,19 @@ Proof.
       clear Hsz. rename Hsz' into Hsz. assert (Hp := pb_size_pos v).
       cbn [flat_map]. unfold frame_bytes at 1. cbn [fst snd].
       destruct v as [ |b|s|b| |l|fs]; cbn [pb_walk];
-        try (rewrite IH by (simpl in Hsz; lia); rewrite <- !app_assoc; reflexivity).
+        try (rewrite IH by (simpl in Hsz; lia); rewrite !concat_rev_cons, <- !app_assoc; reflexivity).
       * (* list *)
         rewrite pb_size_list in Hsz.
         rewrite IH.
-        -- f_equal. rewrite flat_map_app, flat_map_map, frame_bytes_list, enc_pb_list, <- !app_assoc.
+        -- f_equal. rewrite !concat_rev_cons.
+           rewrite flat_map_app, flat_map_map, frame_bytes_list, enc_pb_list, <- !app_assoc.
            reflexivity.
         -- rewrite frames_size_app, frames_size_list. lia.
       * (* struct *)
         rewrite pb_size_struct in Hsz.
         rewrite IH.
-        -- f_equal. rewrite flat_map_app, flat_map_map, frame_bytes_struct, enc_pb_struct, <- !app_assoc.
+        -- f_equal. rewrite !concat_rev_cons.
+           rewrite flat_map_app, flat_map_map, frame_bytes_struct, enc_pb_struct, <- !app_assoc.
            rewrite (Permutation_length (sort_fields_perm fs)). reflexivity.
         -- rewrite frames_size_app, frames_size_struct.
            rewrite (list_sum_perm _ _ (Permutation_map (fun kv => pb_size (snd kv)) (sort_fields_perm fs))).
